@@ -18,7 +18,15 @@ const ruleText = "a case is one sandbox (component fst|ds|dsh|upd, root at depth
 	"dsh: a history of calls on ONE DirStructure tree (ChildDir with plain, multi-element and escaping names on any node; Ensure on any node; EnsureAbsPath/EnsureRelPath/EnsureRelDir " +
 	"aimed at every element (in particular the base name) of the names children were registered with, below the child's parent, from the root, or through another node; generic names); " +
 	"the directory content is emptied before every call, created directories are compared with their modes. upd: storage dir as top-level structure or (variant nested) as a child node of a structure rooted at its parent. " +
-	"A separate stream (implementation + oracle only) has NUL bytes, 300-byte segments, NAME_MAX boundaries inside and outside the root and climbs of depth+6. lib cases compare filepath.Clean/Dir/Join/Rel and " +
+	"Round 3b: (1) archives as SEQUENCES of entries ('unz' entries carry a directory flag of their own, '<name>:d'): an in-scope directory entry (by trailing separator or by attributes) " +
+	"followed, directly or after its content, by a name that extends the directory's name textually and climbs out by len(dir)+1.. parent references; textual extensions without separator; the hostile entry first / in the middle; " +
+	"duplicates (file/file, dir/dir, file then dir and the reverse, the same file under four spellings); a file entry followed by entries below it; './', '//', 'x/../' spellings of the directory; " +
+	"(2) the name alphabet: every traversal shape composed with EACH of backslash, colon, full-width solidus, division slash, fraction slash, %2f, %5c, CR, LF, CRLF, TAB, ';', '|' in place of '/' (all separators, all but the first, every other one, " +
+	"after a real directory element) and with look-alikes of '..' ('.. ', '...', '%2e%2e', full-width stops, overlong UTF-8, '..;', '..%00'); for all components; " +
+	"(3) names built from the root's own absolute path (token @R, expanded to the real root path for the implementation and to the virtual one for model and monitor): k parent references (k = depth, depth+1, depth+2 from the directory the name is resolved in, sometimes fewer), " +
+	"a foreign directory ('mirror' at the sandbox top holds <mirror>/<absolute root path>/ with a well-formed decoy, 'sub', 'tmp/thing_v1-0-0'; or a sibling), the complete root path, a rest — for fstree keys and query prefixes, DirStructure paths and ChildDir names, zip entries, scan roots (absolute and cwd-relative); " +
+	"only where the embedded path starts outside the root and no parent reference follows it (both worlds then agree). " +
+	"A separate stream (implementation + oracle only, also NUL in place of the separator / after '..') has NUL bytes, 300-byte segments, NAME_MAX boundaries inside and outside the root and climbs of depth+6. lib cases compare filepath.Clean/Dir/Join/Rel and " +
 	"path.Base with the model on every string over {'/','.','a'} up to length 6 (pairs up to length 3) and on random strings. " +
 	"A case is non-trivial if at least one of its names contains a parent reference, an absolute prefix or a sibling name; distinct by the hash of its lines."
 
@@ -919,7 +927,7 @@ func generate(r *hxlib.Run, emit func(hxlib.Case)) {
 	}
 
 	// ---- malformed stream: implementation + oracle only ---------------------------------------------
-	for ci := 0; ci < r.Budget(12, 200); ci++ {
+	for ci := 0; ci < r.Budget(15, 200); ci++ {
 		rootRel := pick(rng, rootRels)
 		comp := []string{"fst", "ds", "upd"}[ci%3]
 		emitCase(r, emit, comp, rootRel, "plain", "", true, "malformed", func(g *gctx) []string {
@@ -927,7 +935,14 @@ func generate(r *hxlib.Run, emit func(hxlib.Case)) {
 			var ops []string
 			for i := 0; i < 8; i++ {
 				var name string
-				switch rng.Intn(7) {
+				switch rng.Intn(10) {
+				case 7:
+					// NUL in place of the separator, and after the parent reference (C-string truncation: "..\x00" read as "..")
+					name = strings.Join(g.climbSegs(g.depth+1+rng.Intn(3)), pick(rng, []string{"\x00", "\x00/", "/\x00"}))
+				case 8:
+					name = pick(rng, []string{"sub", "a"}) + "/" + strings.Repeat("..\x00/", g.depth+3) + pick(rng, []string{"x", g.rootName + "-other/evil"})
+				case 9:
+					name = strings.Repeat("../", g.depth+2) + "mirror/" + rootTok + "/x\x00"
 				case 5:
 					name = "ok/a\x00b/" + pick(rng, insidePool) // stays inside the root: the OS refuses the name
 				case 6:
